@@ -137,6 +137,24 @@ def run_tlc(workdir, module, cfg_text, tag, workers=None, timeout=3000, env=None
     return res
 
 
+def run_tlapm(workdir, module, tag, timeout=1800):
+    """Checks the TLAPS proofs of spec/<module>.tla in a scratch copy; returns the number of proved obligations.
+    A proof that does not go through is a defect of the specification work: Broken, never a violation."""
+    sdir = os.path.join(workdir, "proof-" + tag)
+    if not os.path.isdir(sdir):
+        shutil.copytree(SPEC, sdir)
+    try:
+        p = subprocess.run(["tlapm", "--threads", str(NCPU), module + ".tla"], cwd=sdir, stdout=subprocess.PIPE, stderr=subprocess.STDOUT,
+                           text=True, timeout=timeout)
+    except subprocess.TimeoutExpired:
+        raise Broken("tlapm timed out on " + module)
+    m = re.search(r"All (\d+) obligations? proved", p.stdout)
+    shutil.rmtree(sdir, ignore_errors=True)
+    if p.returncode != 0 or not m:
+        raise Broken("TLAPS did not prove %s:\n%s" % (module, p.stdout[-1500:]))
+    return int(m.group(1))
+
+
 def require_clean_mc(res, what):
     """An exhaustive run of the specification itself must pass; anything else is a broken check."""
     if res["rc"] == -9:
